@@ -1,8 +1,8 @@
 #!/verif/.venv/bin/python
 # Replay of a solver counterexample against the unmodified code (no shims).
-# property=C12 kernel=coords label=k1:offending_atoms_exact
+# property=C12 kernel=autolayout label=k4:automatic_layout_register_is_accepted
 import sys
 sys.path[:0] = ['/repo' + "/pulser-core", '/repo' + "/pulser-simulation", "/verif"]
 from symx.replay import replay
-sys.exit(replay(check='checks.c12', kernel='coords', shape={'dims': 2, 'n': 2, 'nsym': 1, 'mind': False, 'maxr': True, 'maxn': False, 'unsorted': True},
-                assignment={'max_radial_distance': '6/1', 'x0_0': '60/1', 'x0_1': '1/1024'}, label='k1:offending_atoms_exact'))
+sys.exit(replay(check='checks.c12', kernel='autolayout', shape={'opt': False, 'n': 3, 'bad': 'far'},
+                assignment={'max_layout_filling': '1/1'}, label='k4:automatic_layout_register_is_accepted'))
